@@ -291,3 +291,26 @@ def r07_8(ctx):
 def r07_9(ctx):
     from .c05 import r05_9
     r05_9(ctx)
+
+
+@rule("R07.10", min_instances=3, desc="grid-name suffix/prefix of sample(): a trailing '-' leaves out the last point, a leading '-' the first point (the flags handed to the grid walkers)")
+def r07_10(ctx):
+    P = ctx.prog
+    f = P.own_method("Stage", "_parse_grid")
+    sc = ctx.scope(f)
+    g = f.params[0]
+    rets = [r for r in walk_no_nested(f.node) if isinstance(r, ast.Return) and isinstance(r.value, ast.Tuple) and len(r.value.elts) == 3]
+    ok = len(rets) == 1 and [ast.unparse(e) for e in rets[0].value.elts] == [g, "include_first", "include_last"]
+    ctx.check(ok, "_parse_grid returns (grid, include_first, include_last)", detail="result order", expected="return grid, include_first, include_last", found="; ".join(ast.unparse(r.value) for r in rets), fi=f)
+    # which flag is cleared under which test
+    table = {}
+    for st in walk_no_nested(f.node):
+        if isinstance(st, ast.Assign) and len(st.targets) == 1 and isinstance(st.targets[0], ast.Name) and st.targets[0].id in ("include_first", "include_last") \
+                and isinstance(st.value, ast.Constant) and st.value.value is False:
+            for t, p in sc.guards(st):
+                if p:
+                    table.setdefault(ast.unparse(t).replace('"', "'"), set()).add(st.targets[0].id)
+    want = {"%s.startswith('-')" % g: {"include_first"}, "%s.endswith('-')" % g: {"include_last"}}
+    ctx.check(table == want, "_parse_grid: leading '-' drops the first point, trailing '-' the last", detail="the wrong end of the sampled grid is left out", expected=str(want), found=str(table), fi=f, sample={"table": str(table)})
+    inits = {d.name: ast.unparse(d.value) for nm in ("include_first", "include_last") for d in sc.defs.get(nm, []) if d.kind == "assign" and not sc.guards(d.stmt)}
+    ctx.check(inits == {"include_first": "True", "include_last": "True"}, "_parse_grid: both end points are included by default", detail="defaults", expected="True / True", found=str(inits), fi=f)
